@@ -194,8 +194,8 @@ type Program struct {
 const lineRegex = `^([^|]*)\|([^|]*)\|(.*)$`
 
 func programs() []*Program {
-	all := []string{"A", "B", "C", "D"}
-	clean := []string{"A", "B", "D"}
+	all := []string{"A", "B", "C", "D", "E"}
+	clean := []string{"A", "B", "D", "E"}
 	return []*Program{
 		{Name: "histo-count", Cmd: "histogram", Kind: "counter", Flags: []string{"-n", "50"}, Match: lineRegex,
 			Extract: [][]part{tpl(g(1))}, Corpora: all, HasCSV: true},
@@ -266,6 +266,10 @@ var recordPool = []string{
 	7: "plain|7|x", // unparsable increment / number
 	8: "no match here",
 	9: "nor, \"here\"",
+	// spellings of decimal integers (zero-padded, signed): base-10 integers all the same
+	10: "pad|r 1|010",
+	11: "pad|r2|-007",
+	12: "a,x|r2|+09",
 }
 
 type Corpus struct {
@@ -280,6 +284,7 @@ var corpora = map[string]*Corpus{
 	"B": {Name: "B", Recs: []int{4, 5, 0, 6, 2}, Gzip: true},
 	"C": {Name: "C", Recs: []int{7, 0, 8, 5, 1}},
 	"D": {Name: "D", Recs: []int{8, 9}, Small: true},
+	"E": {Name: "E", Recs: []int{10, 0, 11, 12, 2}},
 }
 
 func (c *Corpus) lines(n int) []string {
